@@ -7,6 +7,8 @@ import (
 	"os"
 	"strconv"
 	"strings"
+	"syscall"
+	"time"
 
 	"verif/harness/props"
 	"verif/harness/rig"
@@ -45,6 +47,13 @@ func workerMain(args []string) int {
 		fmt.Fprintf(os.Stderr, "bad batch: %v\n", err)
 		return 64
 	}
+	if !b.Race {
+		// a hard address-space limit for workers without the race detector (its shadow memory needs terabytes of
+		// address space): a library loop that allocates without bound then dies with a runtime fatal error whose
+		// trace names it, instead of eating the machine
+		lim := uint64(8 << 30)
+		syscall.Setrlimit(syscall.RLIMIT_AS, &syscall.Rlimit{Cur: lim, Max: lim})
+	}
 	r := rig.NewResult(id, b.Name)
 	j := rig.OpenJournal(*jPath)
 	defer j.Close()
@@ -55,6 +64,41 @@ func workerMain(args []string) int {
 			c.Skip[s] = true
 		}
 	}
+	// watchdog: a library call (or a library goroutine the harness waits for) that computes forever
+	go func() {
+		last, since := rig.CallTicks(), time.Now()
+		for {
+			time.Sleep(2 * time.Second)
+			now := rig.CallTicks()
+			if now != last || now == 0 {
+				last, since = now, time.Now()
+				continue
+			}
+			if time.Since(since) < 10*time.Second {
+				continue
+			}
+			sp := rig.ProveSpin(8, 5*time.Second, func() bool { return rig.CallTicks() == now })
+			if !sp.Spinning {
+				since = time.Now()
+				continue
+			}
+			caseID := ""
+			if f := strings.Fields(j.Last()); len(f) > 1 && f[0] == "CASE" {
+				caseID = f[1]
+			}
+			r.Violate(rig.Violation{
+				Sig:     "busy-loop|" + sp.Func,
+				Detail:  fmt.Sprintf("a goroutine has been computing inside %s for %v of CPU time without the harness seeing any I/O or call complete (non-terminating library code); case in flight: %s", sp.Func, sp.CPU.Round(time.Second), j.Last()),
+				Case:    caseID,
+				Witness: map[string]interface{}{"stack": sp.Dump, "journal": j.Last()},
+			})
+			r.Done = true
+			if *resPath != "" {
+				r.Write(*resPath)
+			}
+			os.Exit(0)
+		}
+	}()
 	p.Run(c)
 	r.Done = true
 	if *resPath != "" {
